@@ -195,6 +195,37 @@ func runC20(p *P, r *R) {
 				okBuf = true
 			}
 			r.ob("R20.3", "callback goroutine: OnData receives the stream's receive buffer", p.ipos(in), okBuf, true, "")
+			// R20.6 the goroutine stops offering (reaches the clearing of its in-process flag) only over an edge on which
+			// the read buffer was found empty or the stream not open: any other way out of the offer loop strands bytes
+			// that are already in the read buffer — nothing re-offers them until more traffic arrives
+			isOpenCall := func(v ssa.Value) bool {
+				cc, okc := v.(*ssa.Call)
+				return okc && p.calleeName(&cc.Call) == "(*Stream).IsOpen"
+			}
+			okp, res := p.findBadPath(body, []Point{pointOf(in)}, pathOpts{
+				Bad: func(i2 ssa.Instruction) bool {
+					if a := p.atomicOp(i2); a != nil && a.Op == "Store" && a.Word == "Stream.callbackInProcess" {
+						_, isCall := i2.(*ssa.Call)
+						return isCall
+					}
+					_, isRet := i2.(*ssa.Return)
+					return isRet
+				},
+				EdgeOK: func(b *ssa.BasicBlock, i int) bool {
+					ifi := blockIf(b)
+					if ifi == nil {
+						return true
+					}
+					if rel := relOn(ifi.Cond, i == 0, isLen, isZero); rel == "<=" || rel == "==" {
+						return false // nothing left to offer
+					}
+					if cc, pol := condCall(ifi.Cond); cc != nil && isOpenCall(cc) && (i == 0) != pol {
+						return false // the stream is no longer open
+					}
+					return true
+				},
+			})
+			r.ob("R20.6", "callback goroutine: after an OnData the offer loop is left only when the read buffer is empty or the stream is not open", p.ipos(in), okp, true, "%s", p.pathString(res))
 		})
 	}
 	r.count("R20.3", "OnData call sites", nOn, 1)
